@@ -122,14 +122,15 @@ RECURSIVE Lex(_, _, _)
 Lex(cs, i, toks) ==
     IF i > Len(cs) THEN [toks |-> toks, err |-> ""]
     ELSE LET c == cs[i] IN
-    IF c \in Special THEN Lex(cs, i + 1, Append(toks, Tok(c, <<>>, NotGiven)))
+    LET prev == IF toks = <<>> THEN "" ELSE toks[Len(toks)].k IN
+    IF prev = ":" /\ c \in Letters \cup Digits \cup {"_"}
+    THEN \* a letter, digit or underscore after the colon starts the label (tokenizer.label)
+         LET j == LabelEnd(cs, i, 0) IN Lex(cs, j, Append(toks, Tok("label", SubSeq(cs, i, j - 1), NotGiven)))
+    ELSE IF c \in Special THEN Lex(cs, i + 1, Append(toks, Tok(c, <<>>, NotGiven)))
     ELSE IF c \in Letters THEN
-        LET prev == IF toks = <<>> THEN "" ELSE toks[Len(toks)].k IN
-        IF prev = ":"
-        THEN LET j == LabelEnd(cs, i + 1, 0) IN Lex(cs, j, Append(toks, Tok("label", SubSeq(cs, i, j - 1), NotGiven)))
-        ELSE LET valid == IF prev \in {"{", ","} THEN Letters \cup Digits \cup {"_"} ELSE Lower \cup Digits \cup {"_"}
-                 j == ScanWhile(cs, i + 1, valid)
-             IN Lex(cs, j, Append(toks, Tok("id", SubSeq(cs, i, j - 1), NotGiven)))
+        LET valid == IF prev \in {"{", ","} THEN Letters \cup Digits \cup {"_"} ELSE Lower \cup Digits \cup {"_"}
+            j == ScanWhile(cs, i + 1, valid)
+        IN Lex(cs, j, Append(toks, Tok("id", SubSeq(cs, i, j - 1), NotGiven)))
     ELSE IF c \in Digits \/ (c = "-" /\ At(cs, i + 1) \in Digits) THEN
         LET neg == (c = "-")
             i0 == IF neg THEN i + 1 ELSE i
@@ -255,7 +256,9 @@ PParam(s) ==
                       ELSE LET q == PLimit(PopTok(r.s), v, TRUE) IN [s |-> q.s, v |-> v, lo |-> r.d, hi |-> q.d, fx |-> fx]
 
 \* --- building the element: Class(**parameters), set_label, _set_limits, set_fixed -------
-LabelOK(lab) == \A i \in 1..Len(lab) : lab[i] \notin NonAscii
+\* set_label: ASCII only, and not made up of digits only
+LabelOK(lab) == /\ \A i \in 1..Len(lab) : lab[i] \notin NonAscii
+                /\ (lab # <<>> => \E i \in 1..Len(lab) : lab[i] \notin Digits)
 
 \* final [lo, hi] of one parameter or "refused"
 Lim(ok, lo, hi) == [ok |-> ok, lo |-> lo, hi |-> hi]
@@ -446,6 +449,140 @@ Process(input) ==
                  ELSE IF Len(s.stack) = 0 THEN [err |-> "ValueError", tree |-> NoConn]
                  ELSE IF s.stack[1].t = "conn" /\ s.stack[1].kind = "S" THEN [err |-> "", tree |-> s.stack[1]]
                  ELSE [err |-> "", tree |-> Conn("S", <<s.stack[1]>>)]
+
+\* ---------------------------------------------------------------------------
+\* the printer (Element.to_string / Container.to_string / Series / Parallel / Circuit.serialize)
+\* and the alternative spellings the syntax allows.
+\*
+\* A spelling is a sequence of tokens (each a sequence of characters) joined with the white
+\* space policy of the options record o:
+\*   o.omit   TRUE: parameters / subcircuits equal to the class defaults are left out
+\*   o.lim    "full" | "omit" (limits equal to the defaults are left out) | "pct" (percent form where exact)
+\*   o.flow   TRUE: fixed marker written as f instead of F
+\*   o.short  "short" | "zero"      o.open  "open" | "inf"
+\*   o.bare   TRUE: a subcircuit that is a series of elements is written as a bare list
+\*   o.ws     "canon" (exactly what the library prints) | "none" | "all" (a blank between any two tokens)
+\*   o.header TRUE: !V=1! in front       o.outer  FALSE: the outer series brackets are left implicit
+\*   o.dec    number of decimals
+\* Canon is the library's own output.
+\* ---------------------------------------------------------------------------
+DigitChar(d) ==
+    CASE d = 0 -> "0" [] d = 1 -> "1" [] d = 2 -> "2" [] d = 3 -> "3" [] d = 4 -> "4"
+      [] d = 5 -> "5" [] d = 6 -> "6" [] d = 7 -> "7" [] d = 8 -> "8" [] d = 9 -> "9"
+RECURSIVE NatDigits(_)
+NatDigits(m) == IF m < 10 THEN <<DigitChar(m)>> ELSE Append(NatDigits(m \div 10), DigitChar(m % 10))
+RECURSIVE Zeros(_)
+Zeros(n) == IF n <= 0 THEN <<>> ELSE <<"0">> \o Zeros(n - 1)
+
+\* "%.<dec>E" % value for values with at most dec+1 significant digits (no rounding needed)
+PrintNum(d, dec) ==
+    IF d.inf THEN (IF d.neg THEN <<"-", "I", "N", "F">> ELSE <<"I", "N", "F">>)
+    ELSE LET ds == IF d.m = 0 THEN <<"0">> ELSE NatDigits(d.m)
+             ex == IF d.m = 0 THEN 0 ELSE d.e + Len(ds) - 1
+             ea == IF ex < 0 THEN 0 - ex ELSE ex
+         IN (IF d.neg THEN <<"-">> ELSE <<>>) \o <<ds[1]>>
+            \o (IF dec > 0 THEN <<".">> \o Tail(ds) \o Zeros(dec - (Len(ds) - 1)) ELSE <<>>)
+            \o <<"E", IF ex < 0 THEN "-" ELSE "+">> \o (IF ea < 10 THEN <<"0", DigitChar(ea)>> ELSE NatDigits(ea))
+PrintLimit(d, dec) == IF d.inf THEN <<"i", "n", "f">> ELSE PrintNum(d, dec)
+
+Canon == [omit |-> FALSE, lim |-> "full", flow |-> FALSE, short |-> "short", open |-> "open", bare |-> FALSE,
+          ws |-> "canon", header |-> FALSE, outer |-> TRUE, dec |-> 12]
+
+\* percent spelling of limit l relative to value v, or <<>> if there is no exact one
+PctOf(l, v) ==
+    IF l.inf \/ v.inf \/ Sign(v) = 0 THEN <<>>
+    ELSE IF Sign(l) = 0 THEN <<"0">>
+    ELSE IF Cmp(l, v) = 0 THEN <<"1", "0", "0">>
+    ELSE IF l.neg = v.neg /\ l.m = v.m /\ l.e = v.e + 1 THEN <<"1", "0", "0", "0">>
+    ELSE IF l.neg = v.neg /\ l.m = v.m /\ l.e = v.e - 1 THEN <<"1", "0">>
+    ELSE <<>>
+
+SameP(p, q) == p.v = q.v /\ p.lo = q.lo /\ p.hi = q.hi /\ p.fx = q.fx
+
+RECURSIVE SpellNode(_, _), SpellItems(_, _), SpellElem(_, _)
+
+AllElems(items) == \A i \in 1..Len(items) : items[i].t = "elem"
+
+\* tokens of one numeric parameter definition
+SpellParam(p, def, o) ==
+    LET num == PrintNum(p.v, o.dec) \o (IF p.fx THEN (IF o.flow THEN <<"f">> ELSE <<"F">>) ELSE <<>>)
+        limtok(l) == IF o.lim = "pct" /\ PctOf(l, p.v) # <<>> THEN <<PctOf(l, p.v), <<"%">>>> ELSE <<PrintLimit(l, o.dec)>>
+        omitLo == o.lim = "omit" /\ p.lo = def.lo
+        omitHi == o.lim = "omit" /\ p.hi = def.hi
+    IN <<p.key, <<"=">>, num>>
+       \o (IF omitLo /\ omitHi THEN <<>>
+           ELSE IF omitHi THEN <<<<"/">>>> \o limtok(p.lo)
+           ELSE IF omitLo THEN <<<<"/">>, <<"/">>>> \o limtok(p.hi)
+           ELSE <<<<"/">>>> \o limtok(p.lo) \o <<<<"/">>>> \o limtok(p.hi))
+
+SpellSub(sd, o) ==
+    IF sd.open THEN <<IF o.open = "open" THEN <<"o", "p", "e", "n">> ELSE <<"i", "n", "f">>>>
+    ELSE IF sd.con.items = <<>> THEN <<IF o.short = "short" THEN <<"s", "h", "o", "r", "t">> ELSE <<"z", "e", "r", "o">>>>
+    ELSE IF o.bare /\ sd.con.kind = "S" /\ AllElems(sd.con.items) THEN SpellItems(sd.con.items, o)
+    ELSE SpellNode(sd.con, o)
+
+\* comma-separated definitions: `sepSub` after a subcircuit, "," after a parameter
+RECURSIVE JoinDefs(_, _)
+JoinDefs(defs, o) ==       \* defs: Seq of [toks, sub]
+    IF defs = <<>> THEN <<>>
+    ELSE IF Len(defs) = 1 THEN defs[1].toks
+    ELSE defs[1].toks \o <<IF o.ws = "canon" /\ defs[1].sub THEN <<",", " ">> ELSE <<",">>>> \o JoinDefs(Tail(defs), o)
+
+SpellElem(n, o) ==
+    LET defs == ParamDefs(n.sym)
+        sdefs == SubDefs(n.sym)
+        subDefs == [i \in 1..Len(n.subs) |-> [toks |-> <<n.subs[i].key, <<"=">>>> \o SpellSub(n.subs[i], o), sub |-> TRUE,
+                                               keep |-> ~(o.omit /\ n.subs[i] = sdefs[i])]]
+        parDefs == [i \in 1..Len(n.ps) |-> [toks |-> SpellParam(n.ps[i], defs[i], o), sub |-> FALSE,
+                                             keep |-> ~(o.omit /\ SameP(n.ps[i], defs[i]))]]
+        kept == SelectSeq(subDefs \o parDefs, LAMBDA d : d.keep)
+        lab == IF n.label = <<>> THEN <<>> ELSE <<<<":">>, n.label>>
+    IN IF o.dec < 0 \/ (o.omit /\ kept = <<>> /\ lab = <<>>) THEN <<n.sym>>
+       ELSE <<n.sym, <<"{">>>> \o JoinDefs(kept, o) \o lab \o <<<<"}">>>>
+
+SpellItems(items, o) == IF items = <<>> THEN <<>> ELSE SpellNode(items[1], o) \o SpellItems(Tail(items), o)
+
+SpellNode(n, o) ==
+    IF n.t = "elem" THEN SpellElem(n, o)
+    ELSE IF n.kind = "S" THEN <<<<"[">>>> \o SpellItems(n.items, o) \o <<<<"]">>>>
+    ELSE <<<<"(">>>> \o SpellItems(n.items, o) \o <<<<")">>>>
+
+RECURSIVE JoinToks(_, _)
+JoinToks(toks, sep) ==
+    IF toks = <<>> THEN <<>> ELSE IF Len(toks) = 1 THEN toks[1] ELSE toks[1] \o sep \o JoinToks(Tail(toks), sep)
+
+\* the text of circuit `root` (a series) under options o
+Spell(root, o) ==
+    LET body == IF o.outer THEN SpellNode(root, o) ELSE SpellItems(root.items, o)
+        head == IF o.header THEN <<<<"!">>, <<"V">>, <<"=">>, <<"1">>, <<"!">>>> ELSE <<>>
+    IN JoinToks(head \o body, IF o.ws = "all" THEN <<" ">> ELSE <<>>)
+
+PrintCdc(root, dec) == Spell(root, [Canon EXCEPT !.dec = dec])
+Serialize(root) == Spell(root, [Canon EXCEPT !.header = TRUE])
+
+\* ---------------------------------------------------------------------------
+\* the circuit a description denotes: directly nested connections of the same kind are merged,
+\* a series of one item is that item (except at the root; at the root of a subcircuit a lone
+\* element stays wrapped)
+\* ---------------------------------------------------------------------------
+RECURSIVE Norm(_), NormItems(_, _)
+NormItems(items, kind) ==
+    IF items = <<>> THEN <<>>
+    ELSE LET x == Norm(items[1]) IN
+         (IF x.t = "conn" /\ x.kind = kind THEN x.items ELSE <<x>>) \o NormItems(Tail(items), kind)
+
+NormSub(sd) ==
+    IF sd.open \/ sd.con.items = <<>> THEN sd
+    ELSE LET its == NormItems(sd.con.items, sd.con.kind) IN
+         IF sd.con.kind = "S" /\ Len(its) = 1 /\ its[1].t = "conn" THEN [sd EXCEPT !.con = its[1]]
+         ELSE [sd EXCEPT !.con = Conn(sd.con.kind, its)]
+
+Norm(n) ==
+    IF n.t = "elem" THEN [n EXCEPT !.subs = [i \in 1..Len(n.subs) |-> NormSub(n.subs[i])]]
+    ELSE LET its == NormItems(n.items, n.kind) IN
+         IF n.kind = "S" /\ Len(its) = 1 THEN its[1] ELSE Conn(n.kind, its)
+
+NormRoot(root) == Conn("S", NormItems(root.items, "S"))
 
 \* ---------------------------------------------------------------------------
 \* outcome classes (C04)
